@@ -12,7 +12,7 @@
     ARBITRARY: frames with any tag may arrive at any time (replies to requests
     never completely sent, duplicated or forged replies). *)
 From Coq Require Import NArith Arith List Bool String.
-From P9V Require Import gen.ConstGen gen.ClientGen Client.Pool Client.PoolProofs Client.Fids Client.Mux Client.MuxProofs.
+From P9V Require Import gen.ConstGen gen.ClientGen Client.Pool Client.PoolProofs Client.Fids Client.Mux Client.MuxProofs Client.SourceShape Client.ClientModel Client.ClientProofs.
 Import ListNotations.
 Open Scope nat_scope.
 
@@ -45,6 +45,16 @@ Proof.
   - apply N.le_ngt in A. apply A. reflexivity.
 Qed.
 Print Assumptions C10_pool_never_sentinel.
+
+(** the bounds NewClient gives the two pools, read from the source: start 1, limit noTag / noFID — so the two
+    instances of the theorem above are the client's pools; pool.Get/Put run under the pool's mutex (pool_locked),
+    which is what lets the sequential allocator model stand for concurrent callers *)
+Theorem C10_client_pools :
+  newclient_pools = [("tagPool", "1", "uint64(noTag)"); ("fidPool", "1", "uint64(noFID)")] /\
+  src_pool_Get = spec_src_pool_Get /\ src_pool_Put = spec_src_pool_Put /\
+  nth 0 spec_src_pool_Get "" = "c.mu.Lock()" /\ nth 1 spec_src_pool_Get "" = "defer c.mu.Unlock()" /\
+  spec_src_pool_Put = ["c.mu.Lock()"; "c.cache = append(c.cache, v)"; "c.mu.Unlock()"].
+Proof. repeat split. Qed.
 
 (** Get fails only when every value of the range is outstanding *)
 Theorem C10_pool_exhausted : forall start0 limit ops pf out res,
@@ -80,7 +90,31 @@ Theorem C10_fid_recycle_refuted :
   fid_run false (mkpool [] 1%N 4294967295%N) [] [] [FBind (BLost true); FBind BOk] = [(Some 1%N, false); (Some 1%N, true)].
 Proof. exact fid_reuse_refuted. Qed.
 
+(** the Get/Put sites of the fid pool in the client (table read from client_file.go): Get in Attach, Walk,
+    WalkGetAttr (and, as reviewed text, xattrWalkRead), each followed on failure by releaseFID; Put(c.fid) only in
+    Close and Remove after the exchange succeeded; releaseFID puts back only on Rlerror *)
+Theorem C10_fid_sites :
+  map gm_name (filter gm_fid_get spec_methods) = ["Attach"; "Walk"; "WalkGetAttr"] /\
+  forallb (fun m => forallb (fun s => String.eqb (gs_put_on_err s) "refused") (gm_sends m)) (filter gm_fid_get spec_methods) = true /\
+  forallb (fun m => forallb (fun s => String.eqb (gs_put_on_err s) "") (gm_sends m)) (filter (fun m => negb (gm_fid_get m)) spec_methods) = true /\
+  map gm_name (filter gm_fid_put_ok spec_methods) = ["Close"; "Remove"] /\
+  forallb (fun m => String.eqb (gm_guard m) "cas") (filter gm_fid_put_ok spec_methods) = true /\
+  ClientGen.release_fid_policy = "refused" /\ ClientGen.methods = spec_methods /\
+  src_Client_releaseFID = ["if _, ok := err.(linux.Errno); ok { c.fidPool.Put(id) }"].
+Proof.
+  destruct fid_sites as (A & B & C & D & E & F). repeat split; auto. exact gen_is_spec.
+Qed.
+
 (** ---- multiplexing ---- *)
+
+(** the functions the interleaving model restates are, statement by statement, the reviewed ones; in particular the
+    tag is given back by a deferred Put (only when the call returns), pending[t] is registered before send, and
+    waitAndRecv is the select loop the steps AWaitDone / AWaitToken stand for *)
+Theorem C10_source_bodies :
+  src_Client_sendRecv = spec_src_Client_sendRecv /\ src_Client_handleOne = spec_src_Client_handleOne /\
+  src_Client_waitAndRecv = spec_src_Client_waitAndRecv /\
+  filter (mentions "tagPool") spec_src_Client_sendRecv = ["t, ok := c.tagPool.Get()"; "defer c.tagPool.Put(t)"].
+Proof. repeat split. Qed.
 
 (** what the source does; reverting dca25c9 / 79e8d00 (or registering after send) makes these obligations fail *)
 Lemma C10_source_shape :
@@ -98,8 +132,10 @@ Definition reachable (n : nat) (m : mst) : Prop :=
 Lemma reachable_inv n m : reachable n m -> Inv m.
 Proof. exact (reach_inv mark n m). Qed.
 
-(** the invariant, in every reachable state: running calls hold pairwise distinct tags and response
-    slots; every pending slot is owned by exactly one running call and its done channel is empty, so
+(** the invariant, in every reachable state.  NOTE (by construction): that running calls hold pairwise distinct TAGS
+    is the enabledness guard of AStart ([fresh]): the model takes it from the allocator — C10_pool for the pool
+    C10_client_pools describes, with the discipline C10_source_bodies shows (one Get, one deferred Put).  What the
+    invariant adds: distinct response SLOTS, every pending slot is owned by exactly one running call and its done channel is empty, so
     no send on done ever blocks; at most one call holds the receive token; a withdrawn slot is never
     held again *)
 Theorem C10_invariant : forall n m, reachable n m -> Inv m.
